@@ -117,12 +117,19 @@ claimed["C02"] = dict(
    ref="DESIGN.md 5/C02, engines E7+E2",
    technique="static order-class dataflow with map-fill idiom recognition and output contracts; guard rule on fetch sites (custom analyzer)")
 
+claimed["C16"] = dict(
+   text="Thin claim. The numerical identities of the 64-bit position arithmetic are NOT decided. Two structural necessary conditions are decided for all inputs: the "
+        "call closure of the exported position functions computes with integers only (no floating-point value, no call into package math other than math/bits - float64 "
+        "cannot represent every position or leaf count at heights near 63), and in ProofPositions every step that replaces a working target by its parent also appends "
+        "to the list of computable positions on every path to the next iteration.",
+   ref="DESIGN.md 5/C16",
+   technique="static type/effect lint over the call closure (no float values, no math calls) and a must-pass-through rule on go/ssa (custom analyzer)")
+
 pending = {}  # id -> reason, for properties whose check is not built yet
 
 not_applicable = {
  "C06": "static analysis cannot reach it: equality of complete observable states across a forward and a backward run over all histories is a property of runtime values; the only structural fact (reversed phase order in Undo) is not a discriminating necessary condition (DESIGN.md section 7)",
  "C08": "static analysis cannot reach it: set equalities and canonicity of recomputed positions/hashes after calcPrevPosition arithmetic; nothing structural to anchor a necessary condition on (DESIGN.md section 7)",
- "C16": "static analysis cannot reach it: every clause is a numerical identity of 64-bit position arithmetic over runtime values; deciding it would need evaluation or symbolic execution, a different technique family (DESIGN.md section 7)",
 }
 
 checks = []
